@@ -10,8 +10,23 @@ func H_c07_download_path() {
 	root := logr.VerifLootRoot()
 	a := VerifNewAgent("11223344")
 	name := logr.VerifPathName("file", verifDownloadComps)
-	a.DownloadAdd(7, name, 100)
+	// an earlier ordinary download has created the agent's Download directory
+	if nondet_bool("earlier-download") {
+		if a.DownloadAdd(6, "first.bin", 10) == nil {
+			a.DownloadClose(6)
+		}
+	}
+	err := a.DownloadAdd(7, name, 100)
 	verif_assert(!logr.VerifCreatedOutside(root, logr.LogrInstance.AgentPath+"/11223344/Download"), "a downloaded file is created inside the agent's Download directory only")
+	// chunks that follow the open (accepted or refused) and the close
+	effects := logr.VerifFSEffects()
+	a.DownloadWrite(7, []byte{nondet_u8("chunk-byte")})
+	if err != nil {
+		verif_assert(logr.VerifFSEffects() == effects, "a chunk for a download whose open was refused is written nowhere")
+		verif_assert(a.DownloadGet(7) == nil, "a refused open registers no download")
+	}
+	a.DownloadClose(7)
+	verif_assert(!logr.VerifCreatedOutside(root, logr.LogrInstance.AgentPath+"/11223344/Download"), "chunks and close never create a file outside the agent's Download directory")
 	verif_witness()
 }
 
